@@ -259,6 +259,28 @@ def judge(hs, ast, text, rows, judged, st, sig, case, check_header=True):
             st.fail('filter-result-differs-on-a-grid-that-grew-after-an-earlier-evaluation', sig, case,
                     {'filter': text, 'rows_selected_on_the_grid_built_at_once': pos1, 'rows_selected_after_growing': pos2, 'appended_from': h})
             ok = False
+        # ... and the same growth through ONE extend() that is refused at its last element (a non-dict), on a grid whose id index
+        # exists already: the rows accepted before the refusal are rows of the grid like any other
+        g3, objs3 = build_grid(hs, rows[:h])
+        run_filter(hs, g3, text)
+        try:
+            g3.get('nowhere-at-all')
+        except Exception:  # noqa
+            pass
+        rest = [{kk: O.build(v, hs) for kk, v in r.items()} for r in rows[h:]]
+        try:
+            g3.extend(rest + [5])
+        except TypeError:
+            pass
+        if len(g3) == len(rows):
+            objs3.extend(rest)
+            out3 = run_filter(hs, g3, text)
+            st.count('executions')
+            pos3 = [k for x in out3[1] for k, o in enumerate(objs3) if o is x] if out3[0] == 'ok' else 'raised ' + str(out3[1])
+            if pos3 != pos1:
+                st.fail('filter-result-differs-on-a-grid-that-grew-after-an-earlier-evaluation', dict(sig, growth='extend refused at its last element'), case,
+                        {'filter': text, 'rows_selected_on_the_grid_built_at_once': pos1, 'rows_selected_after_growing': pos3, 'extended_from': h})
+                ok = False
     after = O.observe_grid(g, hs)
     if N.same(before, after, 'exact') or N.same(after, before, 'exact'):
         st.fail('filter-modified-the-source-grid', sig, case, {'filter': text})
